@@ -1121,3 +1121,63 @@ func checkMirrorStoresOnOwnBranch(c *Ctx, rule string) {
 	}
 	c.Floor(rule, "per-branch mirror stores in the issuers", n, 8)
 }
+
+// checkNoOverRejectingLengthGuard: on the decryption paths (snacl.CryptoKey.Decrypt, snacl.SecretKey.Decrypt,
+// waddrmgr.Manager.Decrypt) a length test on the ciphertext may reject only inputs that cannot be a genuine
+// ciphertext: shorter than nonce + authenticator. The encryption of the EMPTY plaintext is exactly that long
+// and must still be accepted. Every integer guard over len(<ciphertext parameter>) whose outcome leads to an
+// error return is normalised to "len - K < 0" and K must not exceed NonceSize + Overhead.
+func checkNoOverRejectingLengthGuard(c *Ctx, rule string) {
+	p := c.P
+	nonce, ok1 := constInPkg(p, "snacl", "NonceSize")
+	over, ok2 := constInPkg(p, "snacl", "Overhead")
+	if !ok1 || !ok2 {
+		c.Unresolved(rule, "snacl.NonceSize / snacl.Overhead")
+		return
+	}
+	limit := nonce + over
+	fns := []*ssa.Function{p.Func("snacl", "CryptoKey", "Decrypt"), p.Func("snacl", "SecretKey", "Decrypt"), p.Func("waddrmgr", "Manager", "Decrypt")}
+	n := 0
+	for _, fn := range fns {
+		if fn == nil {
+			c.Unresolved(rule, "a Decrypt entry point (snacl.CryptoKey / snacl.SecretKey / waddrmgr.Manager)")
+			continue
+		}
+		n++
+		okAll, detail := true, ""
+		for _, b := range fn.Blocks {
+			if len(b.Instrs) == 0 {
+				continue
+			}
+			iff, ok := b.Instrs[len(b.Instrs)-1].(*ssa.If)
+			if !ok {
+				continue
+			}
+			for si := 0; si < 2; si++ {
+				f, ok := p.cmpForm(iff.Cond, si == 0)
+				if !ok || f.Rel != "<" || len(f.L.Coef) != 1 {
+					continue
+				}
+				atom, cf := "", int64(0)
+				for a, v := range f.L.Coef {
+					atom, cf = a, v
+				}
+				if !strings.HasPrefix(atom, "call:len(") || !strings.Contains(atom, "param#") || cf != 1 {
+					continue // not "len(param) - K < 0"
+				}
+				k := -f.L.Konst
+				// does this outcome lead (only) to error returns?
+				q := &PathQuery{Fn: fn, Target: p.nonErrorReturn()}
+				if len(exploreFromBlock(q, b.Succs[si], b)) > 0 {
+					continue
+				}
+				if k > limit {
+					okAll = false
+					detail = fmt.Sprintf("%s rejects ciphertexts with '%s' (length below %d) although a genuine ciphertext can be as short as NonceSize+Overhead = %d bytes (the encryption of the empty plaintext)", fnName(fn), f.String(), k, limit)
+				}
+			}
+		}
+		c.Check(rule, "length-guard-accepts-minimal-ciphertext:"+fnName(fn), fn.Pos(), okAll, detail)
+	}
+	c.Floor(rule, "decryption entry points", n, 3)
+}
